@@ -34,6 +34,8 @@ def run(chk, repo, tier):
 
     from .extra_rules import sampling_rules
     sampling_rules(chk, repo, 'C13-g')
+    from .extra_rules import sample_order_rule
+    sample_order_rule(chk, repo, 'C13-f')
     cls = repo.cls(SPEC)
     # ---------------------------------------------------------------- C13-a
     for dunder, (meth, ufunc) in OPS.items():
